@@ -5,4 +5,5 @@ CONSTANTS
   PairModes = {"number", "time", "tlnr"}
   PairAssets = {"plain", "thumbs", "imsc1", "s8", "utcvod"}
   SingleAll = TRUE
+  BigTimeline = TRUE
 INVARIANTS TypeOK InvAccept InvSensitive InvIndep Emit
